@@ -61,6 +61,11 @@ def run(ctx):
     tools = vmcheck.VmTools("plain")
     names = vmcheck.opcode_names()
     progs = vmcheck.corpus_programs()
+    # fresh programs from the E5 generator (all profiles): nested functions, closures, catch clauses,
+    # loops, records, arrays, pipes — compiled by the tree's compiler and decided like the corpus
+    gen = vmcheck.generated_programs(tools.tmp, ctx.seed, 25 if ctx.tier == "quick" else 400)
+    progs += gen
+    ctx.notes["generated_programs"] = len(gen)
     if ctx.tier == "quick":
         steps, vsteps = 60000, 20000
     else:
